@@ -162,7 +162,7 @@ def main():
         pass
     m = {
         'version': 1,
-        'setup_cmd': 'cargo +nightly build --release --offline --manifest-path driver/Cargo.toml && python3 -m compileall -q fpsa && python3 -m fpsa.extract default packed',
+        'setup_cmd': 'cargo +nightly build --release --offline --manifest-path driver/Cargo.toml && python3 -m compileall -q fpsa && python3 -m fpsa.extract default packed num-traits all',
         'hooks': {
             'guard': 'fpdec_verif',
             'enable': 'none: static analysis reads the unmodified tree; no hook or instrumentation is compiled into fpdec',
